@@ -12,6 +12,7 @@ mod c12;
 mod c22;
 mod codec;
 mod guard;
+mod raw;
 mod rng;
 mod types;
 mod val;
